@@ -19,6 +19,7 @@ import (
 	"github.com/bloxapp/ssv/networkconfig"
 	"github.com/bloxapp/ssv/operator/keys"
 	"github.com/bloxapp/ssv/protocol/v2/blockchain/beacon"
+	"github.com/bloxapp/ssv/protocol/v2/qbft/roundtimer"
 	ssvtypes "github.com/bloxapp/ssv/protocol/v2/types"
 )
 
@@ -282,21 +283,24 @@ func ZZHarnessConsensus() {
 	// slot window
 	cur := uint64(now-zzGenesis) / 12
 	zzAssert(h <= cur+1, "slot-not-in-future")
-	ttl := uint64(34)
+	// (inclusion window of the role: one epoch for attestations / aggregates, one slot for blocks and sync messages;
+	// the tolerance on top of it is the code's own named constant, so that re-tuning it is not reported)
+	ttl := uint64(32 + lateSlotAllowance)
 	if role == spectypes.BNRoleProposer || role == spectypes.BNRoleSyncCommittee || role == spectypes.BNRoleSyncCommitteeContribution {
-		ttl = 3
+		ttl = 1 + lateSlotAllowance
 	}
 	zzAssert(h+ttl+1 >= cur, "slot-not-too-old")
 	// round window: estimated round from time since slot start (2s quick rounds up to 8, then 2 min)
 	if h <= cur {
 		since := uint64(now) - (zzGenesis + h*12)
-		est := uint64(1) + since/2
-		if est > 8 {
-			est = 9 + (since-16)/120
+		quick, slow, thr := uint64(roundtimer.QuickTimeout/time.Second), uint64(roundtimer.SlowTimeout/time.Second), uint64(roundtimer.QuickTimeoutThreshold)
+		est := uint64(1) + since/quick
+		if est > thr {
+			est = thr + 1 + (since-thr*quick)/slow
 		}
-		zzAssert(r <= est+1, "round-within-estimate")
+		zzAssert(r <= est+allowedRoundsInFuture, "round-within-estimate")
 	} else {
-		zzAssert(r <= 2, "round-within-estimate")
+		zzAssert(r <= 1+allowedRoundsInFuture, "round-within-estimate")
 	}
 	// full data must match the root when it is attached to a type that carries it
 	if len(fullData) != 0 && (t == uint64(specqbft.ProposalMsgType) || t == uint64(specqbft.RoundChangeMsgType) || (t == uint64(specqbft.CommitMsgType) && nsig > 1)) {
@@ -328,6 +332,23 @@ func ZZHarnessConsensus() {
 				}
 				if len(fullData) != 0 && preCopy.ProposalData != nil && (t == uint64(specqbft.ProposalMsgType) || t == uint64(specqbft.RoundChangeMsgType) || nsig > 1) {
 					zzAssert(preCopy.ProposalData[0] == fullData[0], "no-second-proposal-with-different-data")
+				}
+			}
+		}
+	}
+	// the recorded state never moves backwards: this is what lets one step from an ARBITRARY prior state stand
+	// for "after every prefix of previously accepted messages"
+	if pre != nil {
+		st := cs.GetSignerState(signers[0])
+		zzAssert(st != nil && uint64(st.Slot) >= uint64(preCopy.Slot), "post-state-slot-never-decreases")
+		if st != nil && uint64(st.Slot) == uint64(preCopy.Slot) {
+			zzAssert(uint64(st.Round) >= uint64(preCopy.Round), "post-state-round-never-decreases-within-a-slot")
+			if st.Round == preCopy.Round {
+				c, p := st.MessageCounts, preCopy.MessageCounts
+				zzAssert(c.Proposal >= p.Proposal && c.Prepare >= p.Prepare && c.Commit >= p.Commit && c.Decided >= p.Decided && c.RoundChange >= p.RoundChange,
+					"post-state-counters-never-decrease-within-a-round")
+				if preCopy.ProposalData != nil {
+					zzAssert(st.ProposalData != nil && st.ProposalData[0] == preCopy.ProposalData[0], "post-state-keeps-the-recorded-proposal-data")
 				}
 			}
 		}
@@ -393,8 +414,15 @@ func ZZHarnessPartial() {
 			MessageCounts: MessageCounts{
 				PreConsensus:  int(zzNondetRange("cPre", 0, 3)),
 				PostConsensus: int(zzNondetRange("cPost", 0, 3)),
+				Proposal:      int(zzNondetRange("cProposal", 0, 1)),
+				Prepare:       int(zzNondetRange("cPrepare", 0, 1)),
+				Commit:        int(zzNondetRange("cCommit", 0, 1)),
+				RoundChange:   int(zzNondetRange("cRoundChange", 0, 1)),
 			},
 			EpochDuties: int(zzNondetRange("epochDuties", 0, 4)),
+		}
+		if zzNondetBool("stHasProposal") {
+			pre.ProposalData = []byte{0x5A}
 		}
 		cs.Signers.Set(signer, pre)
 	}
@@ -457,13 +485,23 @@ func ZZHarnessPartial() {
 	}
 	st := cs.GetSignerState(signer)
 	zzAssert(st != nil && uint64(st.Slot) >= slot, "partial-post-state-slot")
+	if pre != nil && st != nil && uint64(st.Slot) == uint64(preCopy.Slot) {
+		// frame condition: a partial-signature message for the signer's current slot leaves the consensus part of the
+		// state (round, per-round counters, recorded proposal) as it was - otherwise it would re-open the limits
+		c, p := st.MessageCounts, preCopy.MessageCounts
+		zzAssert(st.Round == preCopy.Round, "partial-keeps-the-round-of-the-current-slot")
+		zzAssert(c.Proposal == p.Proposal && c.Prepare == p.Prepare && c.Commit == p.Commit && c.RoundChange == p.RoundChange && c.Decided == p.Decided,
+			"partial-keeps-the-consensus-counters-of-the-current-slot")
+		zzAssert(c.PreConsensus >= p.PreConsensus && c.PostConsensus >= p.PostConsensus, "partial-counters-never-decrease-within-a-slot")
+		zzAssert((st.ProposalData == nil) == (preCopy.ProposalData == nil), "partial-keeps-the-recorded-proposal-data")
+	}
 	// slot window of the role (same windows as for consensus messages)
 	if zzParam("WIDE") != 1 && role != spectypes.BNRoleValidatorRegistration && role != spectypes.BNRoleVoluntaryExit {
 		cur := uint64(now-zzGenesis) / 12
 		zzAssert(slot <= cur+1, "partial-slot-not-in-future")
-		ttl := uint64(34)
+		ttl := uint64(32 + lateSlotAllowance)
 		if role == spectypes.BNRoleProposer || role == spectypes.BNRoleSyncCommittee || role == spectypes.BNRoleSyncCommitteeContribution {
-			ttl = 3
+			ttl = 1 + lateSlotAllowance
 		}
 		zzAssert(slot+ttl+1 >= cur, "partial-slot-not-too-old")
 	}
